@@ -14,6 +14,26 @@ from vlib.term import z
 
 KINDS = {'p': 'KPub', 'x': 'KXPub', 's': 'KSub', 'c': 'KCtr', 'd': 'KDest'}
 
+HOOK_FIND_EXCL = 'fn find_exclusive_publication_for_verif'
+
+
+def has_find_excl_hook():
+    """ClientConductor::find_exclusive_publication is pub(crate); the harness reaches it through the add-only hook
+    of hooks/cond-find-exclusive.diff. While the repository under test lacks the hook, lookups / drops / peeks of
+    exclusive publications are not generated (harness/c09/build.rs makes the same test when the harness is built)."""
+    from vlib import core
+    try:
+        return HOOK_FIND_EXCL in open(os.path.join(core.REPO, 'src', 'client_conductor.rs')).read()
+    except OSError:
+        return False
+
+
+def hook_note():
+    ok = has_find_excl_hook()
+    return (True, 'hook find_exclusive_publication_for_verif',
+            'present: exclusive publications are looked up, peeked at and dropped like shared ones' if ok else
+            'ABSENT in the repository under test: fx / dx / px operations are not generated (exclusive publications only through add, answers, close)')
+
 
 def impl_line(case):
     cfg = case['cfg']
@@ -124,8 +144,9 @@ def clean_scratch():
 class Sim:
     """Rough conductor simulation used to aim operations."""
 
-    def __init__(self, rng, c0, now0, tdrv, tis):
+    def __init__(self, rng, c0, now0, tdrv, tis, xhook=False):
         self.rng = rng
+        self.xhook = xhook      # find_exclusive_publication_for_verif is there: fx / dx / px may be emitted
         self.c0, self.now, self.tdrv, self.tis = c0, now0, tdrv, tis
         self.next = c0 + 1
         self.closed = False
@@ -187,23 +208,23 @@ class Sim:
 
     def find(self, i, k=None):
         k = k or (self.regs[i]['kind'] if i in self.regs else self.rng.choice('pscd'))
-        if k == 'x':
-            return      # find_exclusive_publication is pub(crate): not reachable from the harness
+        if k == 'x' and not self.xhook:
+            return      # find_exclusive_publication is pub(crate): reachable only through the hook
         self.emit('f' + k, i)
         reg = self.regs.get(i)
         if self.closed or reg is None or reg['kind'] != k:
             return
         if k == 'd':
             return
-        if reg['obj'] or (reg['state'] == 'ready' and k == 'p'):
+        if reg['obj'] or (reg['state'] == 'ready' and k in 'px'):
             reg['obj'] = True
             reg['held'] = True
         elif reg['state'] == 'err':
             del self.regs[i]
 
     def drop(self, i, k=None):
-        k = k or (self.regs[i]['kind'] if i in self.regs else self.rng.choice('psc'))
-        if k in 'xd':
+        k = k or (self.regs[i]['kind'] if i in self.regs else self.rng.choice('pscx' if self.xhook else 'psc'))
+        if k == 'd' or (k == 'x' and not self.xhook):
             return
         self.emit('d' + k, i)
         reg = self.regs.get(i)
@@ -213,8 +234,8 @@ class Sim:
             del self.regs[i]        # (a publication / counter dropped while the ring is full stays registered with a dead handle)
 
     def peek(self, i, k=None):
-        k = k or (self.regs[i]['kind'] if i in self.regs else self.rng.choice('psc'))
-        if k in 'xd':
+        k = k or (self.regs[i]['kind'] if i in self.regs else self.rng.choice('pscx' if self.xhook else 'psc'))
+        if k == 'd' or (k == 'x' and not self.xhook):
             return
         self.emit('p' + k, i)
 
@@ -317,7 +338,7 @@ def gen_history(rng, tier, flavour):
     now0 = rng.choice([1000000, 1000000, 1700000000000])
     tdrv = rng.choice([10000, 10000, 2000])
     tis = rng.choice([5000, 20000, 1000])
-    s = Sim(rng, c0, now0, tdrv, tis)
+    s = Sim(rng, c0, now0, tdrv, tis, xhook=has_find_excl_hook())
     keep_alive = flavour == 'protocol' or rng.random() < 0.75
     if rng.random() < 0.95:
         s.heartbeat()
@@ -355,7 +376,7 @@ def gen_history(rng, tier, flavour):
                 s.find(rng.choice(live))
             elif s.regs and rng.random() < 0.5:
                 i = rng.choice(list(s.regs))
-                s.find(i, rng.choice('pscd'))       # lookup in another kind's map
+                s.find(i, rng.choice('pscdx' if s.xhook else 'pscd'))       # lookup in another kind's map
             else:
                 s.find(s.unknown_id())
         elif r < 0.63:
@@ -442,9 +463,9 @@ def gen_history(rng, tier, flavour):
             s.close()
     for i in list(s.regs)[:8]:
         k = s.regs[i]['kind']
-        if k != 'x':
+        if k != 'x' or s.xhook:
             s.emit('f' + k, i)
-        if k in 'psc':
+        if k in 'psc' or (k == 'x' and s.xhook):
             s.emit('p' + k, i)
     if rng.random() < 0.5:
         s.add(rng.choice('psc'))
@@ -504,6 +525,16 @@ def scripted():
     h('heartbeat-slot-reused-after-lapped-timeout', 'hb 1000000; hc 1; tk 501; w; wl; hc 3; tk 501; w; ap 1 1; tk 501; w')
     h('heartbeat-slot-other-client-never-bound', 'hb 1000000; hc 3; tk 501; w; tk 501; w; hc 1; tk 501; w; hc 3; tk 501; w')
     h('client-timeout-foreign', 'hb 1000000; ap 1 1; we ct 77; fp 1; we ct 0; fp 1; we ct 0; w')
+    if has_find_excl_hook():
+        # exclusive publications looked up / peeked at / dropped through the hook find_exclusive_publication_for_verif
+        h('xpub-timeout-vs-notready', 'hb 1000000; ax 1 1; fx 1; tk 10000; fx 1; tk 1; fx 1; we xr 1 1 5 3 4; fx 1')
+        h('xpub-lifecycle', 'hb 1000000; ax 4 9; fx 1; we xr 1 9 5 3 4; fx 1; fx 1; px 1; we xr 1 9 6 7 8; fx 1; px 1; dx 1; fx 1; dx 1')
+        h('xpub-error-once', 'hb 1000000; ax 4 9; we er 1 3; fx 1; fx 1; ax 4 9; we er 3 5; we xr 3 9 5 3 4; fx 3; fx 3')
+        h('xpub-wrong-map', 'hb 1000000; ap 1 1; ax 1 1; we pr 1 1 1 5 3 4; we xr 2 1 6 7 8; fx 1; fp 2; fx 2; fp 1; px 2; pp 1; we pr 2 2 1 1 1 1; we xr 1 1 1 1 1; px 2; pp 1')
+        h('xpub-close', 'hb 1000000; ax 4 9; ax 5 9; we xr 1 9 5 3 4; we xr 2 9 6 7 8; fx 1; cl; px 1; fx 1; fx 2; dx 1; dx 2; ax 1 1')
+        h('xpub-client-timeout', 'hb 1000000; ax 4 9; we xr 1 9 5 3 4; fx 1; we ct 0; px 1; fx 1; dx 1; w')
+        h('xpub-ring-full-drop', 'hb 1000000; ax 4 9; we xr 1 9 5 3 4; fx 1; rf 1; dx 1; fx 1; rf 0; fx 1; cl')
+        h('xpub-same-while-held', 'hb 1000000; ax 4 9; ax 4 9; we xr 2 9 5 3 4; we xr 1 9 5 3 4; fx 2; fx 1; fx 2; fx 1; px 1; px 2; dx 2; fx 1; fx 2')
     return [conv(c) for c in H]
 
 
